@@ -38,7 +38,7 @@ def out_term(o):
     if k == "Current":
         return f"(OCurrent {cid(o['c'])})"
     if k == "Parent":
-        return f"(OParent {cid(o['p'])})" if o.get("comp_ok", True) else "OInvalid"
+        return f"(OParent {cid(o['p'])})" if o.get("comp_ok", True) and o.get("view_ok", True) else "OInvalid"
     if k == "Spawned":
         return f"(OSpawned {o['t']} {cid(o['cur'])} {cid(o['parent'])})"
     if k == "Done":
@@ -93,6 +93,9 @@ def oracle(r):
             if o.get("p") != top or not o.get("comp_ok", True):
                 bad.append(("C12:parent", f"step {i}: {op['op']} in task {t}: parent {o.get('p')} (component frame ok: "
                             f"{o.get('comp_ok', True)}), current was {top}"))
+            if not o.get("view_ok", True):
+                bad.append(("C12:component-child-view", f"step {i}: a context created inside a component's prepare()/"
+                            f"start() has the right parent but does not see what that parent holds at that moment"))
         elif op["op"] == "Spawn" and o["k"] == "Spawned":
             if op["kind"] == "SPlain":
                 if o["cur"] != top:
